@@ -381,6 +381,31 @@ func runC20(w *World, r *Report) {
 		r.ok("scratch-file-is-per-wallet", "none", "-", "no file is renamed over a wallet file")
 	}
 
+	// two configured paths never share a file: the name of every file the helpers touch keeps the whole configured path
+	r.rule("file-name-keeps-the-configured-path", "every file the wallet file helpers read or write is named by a configured path itself or by that path with a constant suffix appended (path + \".pub\"): a name computed from a part of the path (extension stripped, directory only, base name) lets two wallets with different configured paths meet in one file", 4)
+	for _, fn := range w.RepoFuncs("fileoperations") {
+		for _, c := range callsTo(fn, "os.WriteFile", "os.ReadFile", "os.Open", "os.OpenFile", "os.Create") {
+			_, a := callArgs(c)
+			if len(a) == 0 {
+				continue
+			}
+			isCfgPath := func(v ssa.Value) bool {
+				p := pathOf(v)
+				return strings.Contains(p, ".cfg.") && strings.HasSuffix(p, "Path")
+			}
+			sh := keyShape(a[0], isCfgPath, 0)
+			if !strings.Contains(sh, "$") {
+				continue // a scratch file (os.CreateTemp …): judged by scratch-file-is-per-wallet
+			}
+			ok := sh == "$"
+			if strings.HasPrefix(sh, "($+k\"") && strings.HasSuffix(sh, "\")") && strings.Count(sh, "$") == 1 {
+				ok = true
+			}
+			r.check(ok, "file-name-keeps-the-configured-path", shortFn(fn)+"/"+shortCallee(c)+"("+sh+")", lineOf(w, c), "the file is named by the whole configured path (plus a constant suffix)",
+				"the file name is "+sh+" ($ = the configured path): it does not contain the whole configured path, so different configured paths can name the same file")
+		}
+	}
+
 	// the saved file holds exactly the sealed bytes: writers replace the file's content
 	r.rule("save-replaces-file", "every file opened for writing on the wallet save path truncates (or exclusively creates) it, so that the file holds exactly the bytes just sealed", 2)
 	nSinks := 0
